@@ -154,3 +154,746 @@ Proof.
   - intros w t Hw Ht Hnil'. apply app_eq_nil in Hnil' as [-> Hp2]. destruct (Hnil eq_refl) as [-> ->].
     by apply (pass2_nonempty o ws ts w t).
 Qed.
+
+(* ------------------------------------------------------------------ the res monad *)
+Lemma rbind_Next {A B : Type} (r : res A) (f : A → res B) y :
+  rbind r f = Next y → ∃ a, r = Next a ∧ f a = Next y.
+Proof. destruct r; simpl; [eauto|done..]. Qed.
+
+(* ------------------------------------------------------------------ state updates *)
+Definition comp_le (c' c : comp) : Prop := c_nodes c' = c_nodes c ∧ c_comp c' ⊆ c_comp c.
+Definition cs_le (cs' cs : list comp) : Prop := Forall2 comp_le cs' cs.
+
+Lemma cs_le_refl cs : cs_le cs cs.
+Proof. apply Forall_Forall2_diag, Forall_forall. intros c _. split; done. Qed.
+Lemma cs_le_trans cs1 cs2 cs3 : cs_le cs1 cs2 → cs_le cs2 cs3 → cs_le cs1 cs3.
+Proof.
+  unfold cs_le. intros H1 H2. eapply Forall2_transitive; [|exact H1|exact H2].
+  intros a b c [E1 S1] [E2 S2]. split; [congruence|set_solver].
+Qed.
+Lemma pop_task_le cs i t : cs_le (pop_task cs i t) cs.
+Proof.
+  unfold pop_task, cs_le. apply Forall2_alter_l; [apply cs_le_refl|].
+  intros c c' _ _ [E S]. split; simpl; [done|set_solver].
+Qed.
+Lemma apply_asg_le asg : ∀ v, cs_le (a_cs (apply_asg v asg)) (a_cs v).
+Proof.
+  induction asg as [|a asg IH]; intros v; simpl; [apply cs_le_refl|].
+  eapply cs_le_trans; [apply IH|]. simpl. apply pop_task_le.
+Qed.
+Lemma apply_asg_app v a b : apply_asg v (a ++ b) = apply_asg (apply_asg v a) b.
+Proof. unfold apply_asg. apply foldl_app. Qed.
+Lemma cs_le_lookup_l cs' cs i c' : cs_le cs' cs → cs' !! i = Some c' → ∃ c, cs !! i = Some c ∧ comp_le c' c.
+Proof. intros H Hl. destruct (Forall2_lookup_l _ _ _ _ _ H Hl) as (c & ? & ?). eauto. Qed.
+Lemma cs_le_lookup_r cs' cs i c : cs_le cs' cs → cs !! i = Some c → ∃ c', cs' !! i = Some c' ∧ comp_le c' c.
+Proof. intros H Hl. destruct (Forall2_lookup_r _ _ _ _ _ H Hl) as (c' & ? & ?). eauto. Qed.
+Lemma cs_le_length cs' cs : cs_le cs' cs → List.length cs' = List.length cs.
+Proof. apply Forall2_length. Qed.
+
+Lemma tag_nil i a : tag i a = [] → a = [].
+Proof. unfold tag. apply fmap_nil_inv. Qed.
+Lemma elem_of_tag i a j w t : (j, w, t) ∈ tag i a ↔ j = i ∧ (w, t) ∈ a.
+Proof.
+  unfold tag. rewrite elem_of_list_fmap. split.
+  - intros ([w' t'] & [= -> -> ->] & Hin). done.
+  - intros [-> Hin]. by exists (w, t).
+Qed.
+
+(* ------------------------------------------------------------------ assign_within_component *)
+Lemma awc_spec J E o v ws i a : awc J E o v ws i = Next a →
+  ∃ c, a_cs v !! i = Some c ∧ ∀ j w t, (j, w, t) ∈ a → j = i ∧ t ∈ c_comp c ∧ w ∈ ws.
+Proof.
+  unfold awc. destruct (a_cs v !! i) as [c|] eqn:Hc; [|done]. exists c. split; [done|].
+  destruct (heur o _ (filter (λ w, w ∈ e_gpu E) ws)) as [a1 gw'] eqn:H1.
+  destruct (heur o (filter (λ t, t ∉ j_gpu J) _) _) as [a2 gw2] eqn:H2.
+  injection H as <-. intros j w t Hin. apply elem_of_tag in Hin as [-> Hin]. split; [done|].
+  destruct (heur_spec _ _ _ _ _ H1) as (Ha1 & Hsub1 & _ & _).
+  destruct (heur_spec _ _ _ _ _ H2) as (Ha2 & _ & _ & _).
+  apply elem_of_app in Hin as [Hin|Hin].
+  - destruct (Ha1 _ _ Hin) as [Hw Ht]. apply elem_of_list_filter in Hw as [_ Hw], Ht as [_ Ht].
+    apply order_by_spec in Ht. done.
+  - destruct (Ha2 _ _ Hin) as [Hw Ht]. apply elem_of_list_filter in Ht as [_ Ht]. apply order_by_spec in Ht.
+    split; [done|]. apply elem_of_app in Hw as [Hw|Hw].
+    + by apply elem_of_list_filter in Hw as [_ Hw].
+    + apply elem_of_list_filter in Hw as [_ Hw]. apply Hsub1 in Hw. by apply elem_of_list_filter in Hw as [_ Hw].
+Qed.
+
+(* a component with a computable task and a compatible idle worker among [ws]: something is assigned *)
+Lemma awc_nonempty J E o v ws i a c t g :
+  awc J E o v ws i = Next a → a_cs v !! i = Some c → t ∈ c_comp c → g ∈ ws → g ∈ a_idle v →
+  (t ∈ j_gpu J → g ∈ e_gpu E) → a ≠ [].
+Proof.
+  unfold awc. intros H Hc Ht Hg Hidle Hgpu. rewrite Hc in H.
+  destruct (heur o _ (filter (λ w, w ∈ e_gpu E) ws)) as [a1 gw'] eqn:H1.
+  destruct (heur o (filter (λ t, t ∉ j_gpu J) _) _) as [a2 gw2] eqn:H2.
+  injection H as <-. intros Hnil. apply tag_nil, app_eq_nil in Hnil as [-> ->].
+  destruct (heur_spec _ _ _ _ _ H1) as (_ & _ & Hsame & Hne1).
+  destruct (heur_spec _ _ _ _ _ H2) as (_ & _ & _ & Hne2).
+  assert (Hto : t ∈ order_by (o_tasks o) (c_comp c)) by by apply order_by_spec.
+  destruct (decide (t ∈ j_gpu J)) as [Hgt|Hct].
+  - apply (Hne1 g t); [| |done]; apply elem_of_list_filter; auto.
+  - apply (Hne2 g t); [| |done].
+    + rewrite (Hsame eq_refl). simpl. apply elem_of_app.
+      destruct (decide (g ∈ e_gpu E)) as [Hgg|Hgc].
+      * right. apply elem_of_list_filter. split; [done|]. apply elem_of_list_filter. done.
+      * left. apply elem_of_list_filter. done.
+    + apply elem_of_list_filter. done.
+Qed.
+
+(* ------------------------------------------------------------------ step I *)
+Lemma groupsI_spec E h2c wl : ∀ acc gs, groupsI E h2c wl acc = Next gs →
+  (∀ k w, in_groups k w acc → in_groups k w gs) ∧
+  (∀ w h i, w ∈ wl → e_host E !! w = Some h → h2c !! h = Some (Some i) → in_groups i w gs).
+Proof.
+  induction wl as [|w0 wl IH]; intros acc gs; simpl.
+  - intros [= <-]. split; [done|]. intros w h i Hin. by apply elem_of_nil in Hin.
+  - destruct (e_host E !! w0) as [h0|] eqn:Hh0; [|done]. destruct (h2c !! h0) as [[i0|]|] eqn:Hc0; [| |done].
+    + intros Hg. destruct (IH _ _ Hg) as [Hacc Hnew]. split.
+      * intros k w Hk. apply Hacc. by apply in_groups_add_mono.
+      * intros w h i Hin Hh Hc. apply elem_of_cons in Hin as [->|Hin]; [|eauto].
+        rewrite Hh0 in Hh. injection Hh as <-. rewrite Hc0 in Hc. injection Hc as <-.
+        apply Hacc. apply in_groups_add_same.
+    + intros Hg. destruct (IH _ _ Hg) as [Hacc Hnew]. split; [done|].
+      intros w h i Hin Hh Hc. apply elem_of_cons in Hin as [->|Hin]; [|eauto].
+      rewrite Hh0 in Hh. injection Hh as <-. rewrite Hc0 in Hc. done.
+Qed.
+
+Lemma stepI_spec J E o gs : ∀ v a, stepI J E o v gs = Next a →
+  (∀ j w t, (j, w, t) ∈ a → ∃ c, a_cs v !! j = Some c ∧ t ∈ c_comp c) ∧
+  (a = [] → ∀ i ws, (i, ws) ∈ gs → awc J E o v ws i = Next []).
+Proof.
+  induction gs as [|[i ws] gs IH]; intros v a; simpl.
+  - intros [= <-]. split; [intros j w t Hin; by apply elem_of_nil in Hin|]. intros _ i ws Hin. by apply elem_of_nil in Hin.
+  - intros H. apply rbind_Next in H as (a0 & Hawc & H). apply rbind_Next in H as (r & Hr & [= <-]).
+    destruct (IH _ _ Hr) as [Hs Hn]. destruct (awc_spec _ _ _ _ _ _ _ Hawc) as (c & Hc & Ha0). split.
+    + intros j w t Hin. apply elem_of_app in Hin as [Hin|Hin].
+      * destruct (Ha0 _ _ _ Hin) as (-> & ? & _). eauto.
+      * destruct (Hs _ _ _ Hin) as (c' & Hc' & Ht).
+        destruct (cs_le_lookup_l _ _ _ _ (apply_asg_le a0 v) Hc') as (c0 & Hc0 & _ & Hsub). exists c0. split; [done|]. set_solver.
+    + intros Hnil. apply app_eq_nil in Hnil as [-> ->]. simpl in Hn. intros i' ws' Hin.
+      apply elem_of_cons in Hin as [[= -> ->]|Hin]; [done|]. by apply Hn.
+Qed.
+
+(* ------------------------------------------------------------------ step II *)
+Lemma elem_of_comps_pos cs z i : (z, i) ∈ comps_pos cs ↔ ∃ c, cs !! i = Some c ∧ z = c_weight c ∧ (0 < z)%Z.
+Proof.
+  unfold comps_pos. rewrite merge_sort_Permutation, elem_of_list_filter, elem_of_lookup_imap. simpl. split.
+  - intros (Hpos & i' & c & [= -> ->] & Hc). eauto.
+  - intros (c & Hc & -> & Hpos). split; [done|]. eauto.
+Qed.
+
+Lemma migrants_spec E h2c cs wl : ∀ acc ms, migrants E h2c cs wl acc = Next ms →
+  (∀ k w, in_groups k w acc → in_groups k w ms) ∧
+  (∀ w h, w ∈ wl → e_host E !! w = Some h →
+     (h2c !! h = Some None ∨ ∃ i c, h2c !! h = Some (Some i) ∧ cs !! i = Some c ∧ c_weight c = 0%Z) →
+     in_groups h w ms).
+Proof.
+  induction wl as [|w0 wl IH]; intros acc ms; simpl.
+  - intros [= <-]. split; [done|]. intros w h Hin. by apply elem_of_nil in Hin.
+  - destruct (e_host E !! w0) as [h0|] eqn:Hh0; [|done]. destruct (h2c !! h0) as [[i0|]|] eqn:Hc0; [| |done].
+    + destruct (cs !! i0) as [c0|] eqn:Hci; [|done]. case_bool_decide as Hw0.
+      * intros Hg. destruct (IH _ _ Hg) as [Hacc Hnew]. split.
+        -- intros k w Hk. apply Hacc. by apply in_groups_add_mono.
+        -- intros w h Hin Hh Hc. apply elem_of_cons in Hin as [->|Hin]; [|eauto].
+           rewrite Hh0 in Hh. injection Hh as <-. apply Hacc. apply in_groups_add_same.
+      * intros Hg. destruct (IH _ _ Hg) as [Hacc Hnew]. split; [done|].
+        intros w h Hin Hh Hc. apply elem_of_cons in Hin as [->|Hin]; [|eauto].
+        rewrite Hh0 in Hh. injection Hh as <-. destruct Hc as [Hc|(i & c & Hc & Hi & Hz)]; [congruence|].
+        rewrite Hc0 in Hc. injection Hc as <-. rewrite Hci in Hi. injection Hi as <-. done.
+    + intros Hg. destruct (IH _ _ Hg) as [Hacc Hnew]. split.
+      * intros k w Hk. apply Hacc. by apply in_groups_add_mono.
+      * intros w h Hin Hh Hc. apply elem_of_cons in Hin as [->|Hin]; [|eauto].
+        rewrite Hh0 in Hh. injection Hh as <-. apply Hacc. apply in_groups_add_same.
+Qed.
+
+Lemma stepII_spec J E o cl ms : ∀ v h2c k a h2c', stepII J E o cl v h2c k ms = Next (a, h2c') →
+  (∀ j w t, (j, w, t) ∈ a → ∃ c, a_cs v !! j = Some c ∧ t ∈ c_comp c) ∧
+  (a = [] → ∀ h ws, (h, ws) ∈ ms → ∃ z i, (z, i) ∈ cl ∧ awc J E o v ws i = Next []) ∧
+  (∀ h, h2c' !! h = h2c !! h ∨ ∃ z i, (z, i) ∈ cl ∧ h2c' !! h = Some (Some i)).
+Proof.
+  induction ms as [|[h0 ws0] ms IH]; intros v h2c k a h2c'; simpl.
+  - intros [= <- <-]. split; [intros j w t Hin; by apply elem_of_nil in Hin|]. split; [|by left].
+    intros _ h ws Hin. by apply elem_of_nil in Hin.
+  - destruct (cl !! k) as [[z0 i0]|] eqn:Hk; [|done]. intros H.
+    apply rbind_Next in H as (a0 & Hawc & H). apply rbind_Next in H as ([r h2c1] & Hr & [= <- <-]).
+    destruct (IH _ _ _ _ _ Hr) as (Hs & Hn & Hh). destruct (awc_spec _ _ _ _ _ _ _ Hawc) as (c & Hc & Ha0).
+    assert (Hin0 : (z0, i0) ∈ cl) by by apply elem_of_list_lookup_2 in Hk.
+    split; [|split].
+    + intros j w t Hin. simpl in Hin. apply elem_of_app in Hin as [Hin|Hin].
+      * destruct (Ha0 _ _ _ Hin) as (-> & ? & _). eauto.
+      * destruct (Hs _ _ _ Hin) as (c' & Hc' & Ht).
+        destruct (cs_le_lookup_l _ _ _ _ (apply_asg_le a0 v) Hc') as (c0 & Hc0 & _ & Hsub). exists c0. split; [done|]. set_solver.
+    + simpl. intros Hnil. apply app_eq_nil in Hnil as [-> ->]. simpl in Hn. intros h ws Hin.
+      apply elem_of_cons in Hin as [[= -> ->]|Hin]; [eauto|]. exact (Hn eq_refl _ _ Hin).
+    + simpl. intros h. destruct (Hh h) as [Heq|?]; [|by right].
+      destruct (decide (h = h0)) as [->|Hne].
+      * right. exists z0, i0. split; [done|]. by rewrite Heq, lookup_insert.
+      * left. by rewrite Heq, lookup_insert_ne.
+Qed.
+
+(* ------------------------------------------------------------------ the invariant *)
+Definition disp_set (s : sys) : gset task := list_to_set (dispatched s).*2.
+
+(* the components of the preschedule partition the tasks and are closed under the input edges *)
+Record wf_comps (J : job) (K : list (gset task)) : Prop := {
+  wk_cover : ∀ t, is_task J t → ∃ i X, K !! i = Some X ∧ t ∈ X;
+  wk_task : ∀ i X t, K !! i = Some X → t ∈ X → is_task J t;
+  wk_disj : ∀ i j X Y t, K !! i = Some X → K !! j = Some Y → t ∈ X → t ∈ Y → i = j;
+  wk_closed : ∀ i X t (d : ds), K !! i = Some X → t ∈ X → d ∈ ins J t → d.1 ∈ X;
+}.
+
+(* every worker can run every task it may be asked to run: there is a worker, and if some task
+   needs a GPU, there is a GPU worker *)
+Definition feasible (J : job) (E : env) : Prop :=
+  ∃ g, is_Some (e_host E !! g) ∧ ∀ t, is_task J t → t ∈ j_gpu J → g ∈ e_gpu E.
+
+Section hinv.
+  Context (J : job) (E : env) (K : list (gset task)).
+
+  Record HInv (s : sys) (hs : hstate) : Prop := {
+    hi_nodes : c_nodes <$> h_cs hs = K;
+    hi_comp : ∀ i c t, h_cs hs !! i = Some c → t ∈ c_comp c ↔ t ∈ computable (ctl s) ∧ t ∈ c_nodes c;
+    hi_weight : ∀ i c, h_cs hs !! i = Some c → c_weight c = Z.of_nat (size (c_nodes c ∖ disp_set s));
+    hi_h2c : ∀ w h, e_host E !! w = Some h →
+               ∃ oc, h_h2c hs !! h = Some oc ∧ ∀ i, oc = Some i → (i < List.length (h_cs hs))%nat;
+    hi_idle : ∀ w, is_Some (e_host E !! w) → ong (ctl s) w = ∅ → w ∈ idle (ctl s);
+  }.
+
+  Lemma hinv_K s hs i c : HInv s hs → h_cs hs !! i = Some c → K !! i = Some (c_nodes c).
+  Proof. intros Hh Hc. rewrite <- (hi_nodes _ _ Hh), list_lookup_fmap, Hc. done. Qed.
+  Lemma hinv_K_inv s hs i X : HInv s hs → K !! i = Some X → ∃ c, h_cs hs !! i = Some c ∧ c_nodes c = X.
+  Proof.
+    intros Hh HX. rewrite <- (hi_nodes _ _ Hh), list_lookup_fmap in HX.
+    destruct (h_cs hs !! i) as [c|]; [|done]. injection HX as <-. eauto.
+  Qed.
+
+  Lemma disp_set_spec s t : t ∈ disp_set s ↔ t ∈ (dispatched s).*2.
+  Proof. unfold disp_set. by rewrite elem_of_list_to_set. Qed.
+
+  (* rank induction (compare Progress.all_completed): with nothing running and every publication of
+     a completed task delivered, an undispatched task of a component leads to a computable one *)
+  Lemma undispatched_reaches_computable rank s hs i c :
+    wf_dag J rank → wf_comps J K → Inv J E s → HInv s hs → InOrder J s → ongoing_total (ctl s) = ∅ →
+    h_cs hs !! i = Some c →
+    ∀ n t, (rank t < n)%nat → t ∈ c_nodes c → t ∉ disp_set s → ∃ t', t' ∈ c_comp c.
+  Proof.
+    intros [Hdag _] Hwk Hinv Hh Hio Hot Hc. pose proof (hinv_K _ _ _ _ Hh Hc) as HK.
+    assert (Hnoong : ∀ w t, t ∉ ong (ctl s) w).
+    { intros w t Ht. assert (t ∈ ongoing_total (ctl s)) as Hin by (apply ongoing_total_spec; eauto).
+      rewrite Hot in Hin. set_solver. }
+    induction n as [|n IH]; intros t Hr Ht Hnd; [lia|].
+    pose proof (wk_task _ _ Hwk _ _ _ HK Ht) as Htask.
+    assert (Hnc : t ∉ completed (ctl s)).
+    { intros Hcp. destruct (i_completed _ _ _ Hinv _ Hcp) as [Hf _].
+      destruct (i_fin_disp _ _ _ Hinv _ Hf) as [Hd _]. apply Hnd. by apply disp_set_spec. }
+    destruct (i_phase _ _ _ Hinv _ Htask Hnc) as [Hin|[[X HX]|[w Hw]]].
+    - exists t. apply (hi_comp _ _ Hh _ _ _ Hc). done.
+    - destruct (i_tr _ _ _ Hinv _ _ HX) as (_ & _ & _ & _ & Hne & Heq).
+      assert (∃ d, d ∈ X) as [d Hd].
+      { destruct (set_choose_or_empty X) as [?|He]; [done|]. by apply leibniz_equiv in He. }
+      rewrite Heq in Hd. apply elem_of_difference in Hd as [Hd Hns].
+      destruct (Hdag _ _ Hd) as (Htp & Hout & Hrk).
+      pose proof (wk_closed _ _ Hwk _ _ _ _ HK Ht Hd) as Hpn. destruct d as [p j]. simpl in *.
+      destruct (decide (p ∈ disp_set s)) as [Hpd|Hpnd]; [|apply (IH p); [lia|done|done]].
+      exfalso. apply disp_set_spec, elem_of_list_fmap in Hpd as ([w p'] & Hp & Hin). simpl in Hp. subst p'.
+      destruct (i_disp _ _ _ Hinv _ _ Hin) as (Hnc1 & Hnt & _ & _).
+      assert (Hcp : p ∈ completed (ctl s)).
+      { destruct (decide (p ∈ completed (ctl s))) as [?|Hncp]; [done|exfalso].
+        destruct (i_phase _ _ _ Hinv _ Htp Hncp) as [?|[[Y HY]|[w' Hw']]]; [done|congruence|by apply (Hnoong w' p)]. }
+      apply Hns. by apply (Hio p).
+    - exfalso. by apply (Hnoong w t).
+  Qed.
+
+  Lemma comp_has_computable rank s hs i c :
+    wf_dag J rank → wf_comps J K → Inv J E s → HInv s hs → InOrder J s → ongoing_total (ctl s) = ∅ →
+    h_cs hs !! i = Some c → (0 < c_weight c)%Z → ∃ t, t ∈ c_comp c ∧ is_task J t.
+  Proof.
+    intros Hdag Hwk Hinv Hh Hio Hot Hc Hpos. rewrite (hi_weight _ _ Hh _ _ Hc) in Hpos.
+    assert (Hsz : (0 < size (c_nodes c ∖ disp_set s))%nat) by lia.
+    apply size_pos_elem_of in Hsz as [t0 Ht0]. apply elem_of_difference in Ht0 as [Ht0 Hnd].
+    destruct (undispatched_reaches_computable rank s hs i c Hdag Hwk Hinv Hh Hio Hot Hc (S (rank t0)) t0 ltac:(lia) Ht0 Hnd) as [t Ht].
+    exists t. split; [done|]. apply (hi_comp _ _ Hh _ _ _ Hc) in Ht as [Ht _]. by destruct (i_comp _ _ _ Hinv _ Ht).
+  Qed.
+
+  (* ---------------------------------------------------------------- progress of one call of assign *)
+  Theorem heur_assign_nonempty rank s hs o asg hs' :
+    wf_dag J rank → wf_comps J K → feasible J E → Inv J E s → HInv s hs → InOrder J s →
+    ongoing_total (ctl s) = ∅ → computable (ctl s) ≠ ∅ →
+    heur_assign J E o hs (idle (ctl s)) = Next (asg, hs') → asg ≠ [].
+  Proof.
+    intros Hdag Hwk (g & [hg Hg] & Hgpu) Hinv Hh Hio Hot Hcne Hha Hnil. subst asg.
+    unfold heur_assign in Hha.
+    apply rbind_Next in Hha as (gs & Hgs & Hha). apply rbind_Next in Hha as (a1 & Ha1 & Hha).
+    destruct (groupsI_spec _ _ _ _ _ Hgs) as [_ HgsI]. destruct (stepI_spec _ _ _ _ _ _ Ha1) as [_ HnI].
+    (* the universal worker is idle *)
+    assert (Hgi : g ∈ idle (ctl s)).
+    { apply (hi_idle _ _ Hh); [eauto|]. destruct (set_choose_or_empty (ong (ctl s) g)) as [[t Ht]|He]; [|by apply leibniz_equiv in He].
+      exfalso. assert (t ∈ ongoing_total (ctl s)) as Hin by (apply ongoing_total_spec; eauto). rewrite Hot in Hin. set_solver. }
+    assert (Hgwl : g ∈ order_by (o_workers o) (idle (ctl s))) by by apply order_by_spec.
+    (* a component with a computable task *)
+    apply set_choose_L in Hcne as [ts Hts].
+    destruct (i_comp _ _ _ Hinv _ Hts) as (Htst & _ & _ & Htsnd).
+    destruct (wk_cover _ _ Hwk _ Htst) as (is & Xs & HKs & HtsX).
+    destruct (hinv_K_inv _ _ _ _ Hh HKs) as (cs & Hcs & Hcsn).
+    assert (Hwpos : (0 < c_weight cs)%Z).
+    { rewrite (hi_weight _ _ Hh _ _ Hcs). assert (ts ∈ c_nodes cs ∖ disp_set s) as Hin.
+      { apply elem_of_difference. rewrite Hcsn. split; [done|]. by rewrite disp_set_spec. }
+      destruct (size (c_nodes cs ∖ disp_set s)) eqn:Hsz; [|lia].
+      apply size_empty_inv in Hsz. set_solver. }
+    (* any call of assign_within_component for a component of positive weight with g among the workers assigns *)
+    assert (Hcall : ∀ ws i c a, h_cs hs !! i = Some c → (0 < c_weight c)%Z → g ∈ ws →
+              awc J E o {| a_cs := h_cs hs; a_idle := idle (ctl s) |} ws i = Next a → a ≠ []).
+    { intros ws i c a Hc Hpos Hgw Hawc.
+      destruct (comp_has_computable rank s hs i c Hdag Hwk Hinv Hh Hio Hot Hc Hpos) as (t & Ht & Htt).
+      apply (awc_nonempty _ _ _ _ _ _ _ c t g Hawc); simpl; [done|done|done|done|]. intros Hgt. by apply (Hgpu t). }
+    (* step I assigned nothing *)
+    assert (Ha1nil : a1 = []).
+    { revert Hha. case_bool_decide; [by intros [= -> _]|]. case_bool_decide; [by intros [= -> _]|].
+      intros Hha. apply rbind_Next in Hha as (ms & _ & Hha). apply rbind_Next in Hha as (r & _ & Hha).
+      injection Hha as Hha _. by apply app_eq_nil in Hha as [-> _]. }
+    subst a1. simpl in Hha. specialize (HnI eq_refl).
+    case_bool_decide as Hidle; [rewrite Hidle in Hgi; set_solver|].
+    case_bool_decide as Hcl.
+    { assert ((c_weight cs, is) ∈ comps_pos (h_cs hs)) as Hin by (apply elem_of_comps_pos; eauto).
+      rewrite Hcl in Hin. by apply elem_of_nil in Hin. }
+    apply rbind_Next in Hha as (ms & Hms & Hha). apply rbind_Next in Hha as ([a2 h2c'] & HsII & Hha).
+    injection Hha as Ha2 _. simpl in Ha2. subst a2.
+    destruct (migrants_spec _ _ _ _ _ _ Hms) as [_ Hmig].
+    destruct (stepII_spec _ _ _ _ _ _ _ _ _ _ HsII) as (_ & HnII & _). specialize (HnII eq_refl).
+    assert (Hgwl2 : g ∈ filter (λ w, w ∈ idle (ctl s)) (order_by (o_workers o) (idle (ctl s)))).
+    { apply elem_of_list_filter. done. }
+    (* g's host migrates: it is given a component of positive weight *)
+    assert (Hmigrant : in_groups hg g ms → False).
+    { intros (ws & Hin & Hgw). destruct (HnII _ _ Hin) as (z & i & Hcli & Hawc).
+      apply elem_of_comps_pos in Hcli as (c & Hc & -> & Hpos). by apply (Hcall ws i c [] Hc Hpos Hgw Hawc). }
+    destruct (hi_h2c _ _ Hh _ _ Hg) as (oc & Hoc & Hbound). destruct oc as [i|].
+    - destruct (lookup_lt_is_Some_2 (h_cs hs) i (Hbound i eq_refl)) as [c Hc].
+      destruct (decide (c_weight c = 0%Z)) as [Hz|Hnz].
+      + apply Hmigrant. apply (Hmig g hg Hgwl2 Hg). right. eauto.
+      + assert (Hpos : (0 < c_weight c)%Z). { rewrite (hi_weight _ _ Hh _ _ Hc) in Hnz |- *. lia. }
+        destruct (HgsI g hg i Hgwl Hg Hoc) as (ws & Hin & Hgw).
+        by apply (Hcall ws i c [] Hc Hpos Hgw (HnI _ _ Hin)).
+    - apply Hmigrant. apply (Hmig g hg Hgwl2 Hg). by left.
+  Qed.
+End hinv.
+
+Arguments hi_nodes {_ _ _ _} _.
+Arguments hi_comp {_ _ _ _} _ _ _ _ _.
+Arguments hi_weight {_ _ _ _} _ _ _ _.
+Arguments hi_h2c {_ _ _ _} _ _ _ _.
+Arguments hi_idle {_ _ _ _} _ _ _ _.
+Arguments hinv_K {_ _ _ _ _ _} _ _.
+Arguments hinv_K_inv {_ _ _ _ _ _} _ _.
+
+(* ------------------------------------------------------------------ what the steps of Model.v do to the fields HInv reads *)
+Lemma assign_fields J E s w t srcs s' cs :
+  exec J E s (LAssign w t srcs) = Next (s', cs) →
+  t ∈ computable (ctl s) ∧ computable (ctl s') = computable (ctl s) ∖ {[t]} ∧ idle (ctl s') = idle (ctl s) ∖ {[w]} ∧
+  (∀ w', ong (ctl s') w' = if decide (w = w') then {[t]} ∪ ong (ctl s) w else ong (ctl s) w') ∧
+  dispatched s' = dispatched s ++ [(w, t)].
+Proof.
+  simpl. destruct (assign_c J E (ctl s) w t srcs) as [[c h]| |e|e] eqn:Ha; try done.
+  case_bool_decide; [done|]. intros [= <- <-]. simpl.
+  unfold assign_c in Ha. destruct (e_host E !! w); [|done].
+  destruct (negb _) eqn:Hen in Ha; [done|]. apply negb_false_iff in Hen.
+  apply andb_prop in Hen as [Hen _]. apply andb_prop in Hen as [Htc _]. apply bool_decide_eq_true in Htc.
+  case_bool_decide; [done|]. destruct (negb _) in Ha; [done|].
+  destruct (ongoing (ctl s) !! w) as [X|] eqn:HX; [case_bool_decide; [done|]|]; injection Ha as <- <-; simpl;
+    (split; [done|]); (split; [done|]); (split; [done|]); (split; [|done]); intros w'; unfold ong; simpl;
+    rewrite ong_insert; destruct (decide (w = w')) as [->|?]; try done; rewrite HX; simpl; set_solver.
+Qed.
+
+Lemma complete_fields J c w t c2 : complete_c J c w t = Next c2 →
+  computable c2 = computable c ∧ ∃ X, ongoing c !! w = Some X ∧ ongoing c2 = <[w := X ∖ {[t]}]> (ongoing c) ∧
+  idle c2 = (if bool_decide (X ∖ {[t]} = ∅) then {[w]} ∪ idle c else idle c).
+Proof.
+  unfold complete_c. case_bool_decide; [|done]. destruct (ongoing c !! w) as [X|]; [|done].
+  case_bool_decide; [|done]. intros [= <-]. simpl. split; [done|]. exists X. done.
+Qed.
+
+Lemma new_computable_publish J c h d : computable (publish_c J c h d) = computable c ∪ new_computable c d.
+Proof. by destruct (publish_fields J c h d) as (-> & _). Qed.
+
+Definition ev_new (c : cstate) (ev : event) : gset task :=
+  match ev with EPub _ d | EXfer _ d => new_computable c d | EPay _ _ => ∅ end.
+
+Lemma notify_fields J E c ev c' : notify J E c ev = Next c' →
+  computable c' = computable c ∪ ev_new c ev ∧
+  (∀ w, ong c' w = ∅ → ong c w = ∅ ∨ w ∈ idle c') ∧ (∀ w, w ∈ idle c → w ∈ idle c').
+Proof.
+  destruct ev as [w d|h d|d v]; simpl.
+  - destruct (e_host E !! w) as [h|]; [|done].
+    destruct (publish_fields J c h d) as (_ & Ei & Eo & _).
+    case_bool_decide.
+    + intros Hc. destruct (complete_fields _ _ _ _ _ Hc) as (-> & X & HX & Eo2 & Ei2).
+      split; [apply new_computable_publish|]. split.
+      * intros w' Hw'. unfold ong in *. rewrite Eo2, ong_insert in Hw'. rewrite Ei2. destruct (decide (w = w')) as [->|?].
+        -- right. rewrite bool_decide_eq_true_2 by done. set_solver.
+        -- left. by rewrite <- Eo.
+      * intros w' Hw'. rewrite Ei2, Ei. case_bool_decide; set_solver.
+    + intros [= <-]. split; [apply new_computable_publish|]. split.
+      * intros w' Hw'. left. unfold ong in *. by rewrite <- Eo.
+      * intros w' Hw'. by rewrite Ei.
+  - intros [= <-]. destruct (publish_fields J c h d) as (_ & Ei & Eo & _).
+    split; [apply new_computable_publish|]. split.
+    + intros w' Hw'. left. unfold ong in *. by rewrite <- Eo.
+    + intros w' Hw'. by rewrite Ei.
+  - intros [= <-]. simpl. split; [set_solver|]. split; auto.
+Qed.
+
+Lemma deliver_fields J E s ev s' cs : exec J E s (LDeliver ev) = Next (s', cs) →
+  notify J E (ctl s) ev = Next (ctl s') ∧ dispatched s' = dispatched s.
+Proof.
+  simpl. destruct (list_remove ev (pool s)); [|done].
+  destruct (notify J E (ctl s) ev) as [c| |e|e]; try done. intros [= <- <-]. done.
+Qed.
+
+(* the other steps leave them alone *)
+Definition frame_label (l : label) : Prop :=
+  match l with LAssign _ _ _ | LDeliver _ => False | _ => True end.
+
+Lemma frame_fields J E s l s' cs : frame_label l → exec J E s l = Next (s', cs) →
+  computable (ctl s') = computable (ctl s) ∧ idle (ctl s') = idle (ctl s) ∧ ongoing (ctl s') = ongoing (ctl s) ∧
+  dispatched s' = dispatched s.
+Proof.
+  destruct l as [w t srcs| |ev|w i|[[d src] tgt]|[d src]|[h d]]; simpl; try done; intros _.
+  - destruct (flush_c J (ctl s)) as [[c fl] pl] eqn:Hf. intros [= <- <-]. simpl.
+    unfold flush_c in Hf. injection Hf as <- _ _. done.
+  - destruct (wq s !! w); [|done]. destruct (e_host E !! w); [|done].
+    destruct (negb _); [done|]. destruct (negb _); [done|]. destruct (bool_decide _); [done|]. intros [= <- <-]. done.
+  - destruct (list_remove _ _); [|done]. destruct (negb _); [done|]. intros [= <- <-]. done.
+  - destruct (list_remove _ _); [|done]. destruct (negb _); [done|]. intros [= <- <-]. done.
+  - destruct (list_remove _ _); [|done]. intros [= <- <-]. done.
+Qed.
+
+(* ------------------------------------------------------------------ preservation of HInv *)
+Lemma cs_le_nodes cs' cs : cs_le cs' cs → c_nodes <$> cs' = c_nodes <$> cs.
+Proof. induction 1 as [|c' c cs' cs [Hn _] _ IH]; [done|]. csimpl. by rewrite Hn, IH. Qed.
+
+Lemma fmap_nodes_alter (f : comp → comp) (cs : list comp) : (∀ c, c_nodes (f c) = c_nodes c) → ∀ i : nat, c_nodes <$> alter f i cs = c_nodes <$> cs.
+Proof. intros Hf. induction cs as [|c cs IH]; intros [|i]; csimpl; [done|done|by rewrite Hf|by rewrite IH]. Qed.
+
+Lemma env_hosts_spec E h : h ∈ env_hosts E ↔ ∃ w, e_host E !! w = Some h.
+Proof.
+  unfold env_hosts. apply (map_fold_ind (λ acc m, h ∈ acc ↔ ∃ w, m !! w = Some h)).
+  - split; [set_solver|]. intros [w Hw]. by rewrite lookup_empty in Hw.
+  - intros w h' m acc Hm IH. rewrite elem_of_union, IH, elem_of_singleton. split.
+    + intros [->|[w' Hw']]; [exists w; by rewrite lookup_insert|].
+      exists w'. rewrite lookup_insert_ne; [done|]. intros ->. congruence.
+    + intros [w' Hw']. destruct (decide (w = w')) as [->|Hne].
+      * rewrite lookup_insert in Hw'. injection Hw' as ->. by left.
+      * rewrite lookup_insert_ne in Hw' by done. right. eauto.
+Qed.
+
+Section preserve.
+  Context (J : job) (E : env) (K : list (gset task)).
+  Hypothesis wf_nout : ∀ t, is_task J t → 1 ≤ nout J t.
+  Hypothesis Hwk : wf_comps J K.
+
+  Lemma hinv_frame s s' hs :
+    computable (ctl s') = computable (ctl s) → idle (ctl s') = idle (ctl s) → ongoing (ctl s') = ongoing (ctl s) →
+    dispatched s' = dispatched s → HInv E K s hs → HInv E K s' hs.
+  Proof.
+    intros Ec Ei Eo Ed Hh. constructor.
+    - apply (hi_nodes Hh).
+    - intros i c t Hc. rewrite Ec. by apply (hi_comp Hh i).
+    - intros i c Hc. unfold disp_set. rewrite Ed. by apply (hi_weight Hh i).
+    - apply (hi_h2c Hh).
+    - intros w Hw. unfold ong. rewrite Eo, Ei. by apply (hi_idle Hh).
+  Qed.
+
+  Lemma hinv_init : HInv E K (init J E) (hinit J E K).
+  Proof.
+    constructor; simpl.
+    - rewrite <- list_fmap_compose. clear. induction K as [|X K' IH]; [done|]. csimpl. by rewrite IH.
+    - intros i c t Hc. rewrite list_lookup_fmap in Hc. destruct (K !! i) as [X|]; [|done]. injection Hc as <-. simpl.
+      rewrite elem_of_filter. done.
+    - intros i c Hc. rewrite list_lookup_fmap in Hc. destruct (K !! i) as [X|]; [|done]. injection Hc as <-. simpl.
+      unfold disp_set. simpl. f_equal. f_equal. set_solver.
+    - intros w h Hw. exists None. split; [|done]. apply lookup_gset_to_gmap_Some. split; [|done].
+      apply env_hosts_spec. eauto.
+    - intros w Hw _. by apply elem_of_dom.
+  Qed.
+
+  Lemma hinv_assign_one s w t srcs s' cmds cs m i c :
+    Inv J E s → HInv E K s {| h_cs := cs; h_h2c := m |} → cs !! i = Some c → t ∈ c_nodes c →
+    exec J E s (LAssign w t srcs) = Next (s', cmds) → HInv E K s' {| h_cs := pop_task cs i t; h_h2c := m |}.
+  Proof.
+    intros Hinv Hh Hc Htn Hex. destruct (assign_fields _ _ _ _ _ _ _ _ Hex) as (Htc & Ec & Ei & Eo & Ed).
+    pose proof (hinv_K Hh Hc) as HKi. cbn [h_cs h_h2c] in *.
+    assert (Hother : ∀ j c', j ≠ i → cs !! j = Some c' → t ∉ c_nodes c').
+    { intros j c' Hne Hc' Hin. apply Hne. apply (wk_disj _ _ Hwk j i _ _ t (hinv_K Hh Hc') HKi Hin Htn). }
+    assert (Hds : disp_set s' = disp_set s ∪ {[t]}).
+    { unfold disp_set. rewrite Ed, fmap_app, list_to_set_app_L. simpl. set_solver. }
+    assert (Htnd : t ∉ disp_set s).
+    { rewrite disp_set_spec. by destruct (i_comp _ _ _ Hinv _ Htc) as (_ & _ & _ & ?). }
+    constructor; simpl.
+    - rewrite (cs_le_nodes _ _ (pop_task_le cs i t)). apply (hi_nodes Hh).
+    - intros j c' t0 Hc'. unfold pop_task in Hc'. destruct (decide (j = i)) as [->|Hne].
+      + rewrite list_lookup_alter, Hc in Hc'. injection Hc' as <-. simpl. rewrite Ec.
+        pose proof (hi_comp Hh i c t0 Hc). set_solver.
+      + rewrite list_lookup_alter_ne in Hc' by done. rewrite Ec.
+        pose proof (hi_comp Hh j c' t0 Hc'). pose proof (Hother j c' Hne Hc'). set_solver.
+    - intros j c' Hc'. unfold pop_task in Hc'. rewrite Hds. destruct (decide (j = i)) as [->|Hne].
+      + rewrite list_lookup_alter, Hc in Hc'. injection Hc' as <-. simpl.
+        rewrite (hi_weight Hh i c Hc).
+        assert (Hin : t ∈ c_nodes c ∖ disp_set s) by (apply elem_of_difference; done).
+        replace (c_nodes c ∖ (disp_set s ∪ {[t]})) with ((c_nodes c ∖ disp_set s) ∖ {[t]}) by (clear; set_solver).
+        rewrite (size_difference (c_nodes c ∖ disp_set s) {[t]}) by (apply singleton_subseteq_l; exact Hin). rewrite size_singleton.
+        assert (size (c_nodes c ∖ disp_set s) ≠ 0%nat).
+        { intros Hz. apply size_empty_inv in Hz. clear -Hz Hin. set_solver. }
+        lia.
+      + rewrite list_lookup_alter_ne in Hc' by done. rewrite (hi_weight Hh j c' Hc').
+        pose proof (Hother j c' Hne Hc') as Hnot. do 2 f_equal. clear -Hnot. set_solver.
+    - intros w0 h Hw0. destruct (hi_h2c Hh _ _ Hw0) as (oc & Hoc & Hb). exists oc. split; [done|].
+      unfold pop_task. by rewrite alter_length.
+    - intros w0 Hw0. rewrite Eo, Ei. destruct (decide (w = w0)) as [->|Hne]; [set_solver|].
+      intros Ho. pose proof (hi_idle Hh w0 Hw0 Ho). set_solver.
+  Qed.
+
+  Lemma hinv_assign_seq asg : ∀ srcs s cs I m s',
+    List.length asg = List.length srcs → Inv J E s → HInv E K s {| h_cs := cs; h_h2c := m |} →
+    (∀ j w t, (j, w, t) ∈ asg → ∃ c, cs !! j = Some c ∧ t ∈ c_nodes c) →
+    assign_seq J E s (zip_with (λ (a : cid * worker * task) (x : gmap ds host), (a.1.2, a.2, x)) asg srcs) = Next s' →
+    Inv J E s' ∧ HInv E K s' {| h_cs := a_cs (apply_asg {| a_cs := cs; a_idle := I |} asg); h_h2c := m |}.
+  Proof.
+    induction asg as [|[[j w] t] asg IH]; intros srcs s cs I m s' Hlen Hinv Hh Hn; destruct srcs as [|x srcs]; try done; simpl.
+    - intros [= <-]. done.
+    - destruct (assign_c J E (ctl s) w t x) as [[c h]| |e|e] eqn:Ha; try done.
+      case_bool_decide as Hwq; [done|]. intros Hseq.
+      match type of Hseq with assign_seq _ _ ?s1 _ = _ => set (s1' := s1) in * end.
+      assert (Hex : ∃ cm, exec J E s (LAssign w t x) = Next (s1', cm)).
+      { simpl. rewrite Ha. rewrite bool_decide_eq_false_2 by done. eauto. }
+      destruct Hex as [cm Hex].
+      pose proof (exec_inv J E wf_nout s (LAssign w t x) Hinv) as Hinv1. rewrite Hex in Hinv1.
+      destruct (Hn j w t ltac:(by left)) as (c0 & Hc0 & Ht0).
+      pose proof (hinv_assign_one _ _ _ _ _ _ _ _ _ _ Hinv Hh Hc0 Ht0 Hex) as Hh1.
+      apply (IH srcs s1' (pop_task cs j t) (I ∖ {[w]}) m s'); [by injection Hlen|done|done| |done].
+      intros j' w' t' Hin. destruct (Hn j' w' t' ltac:(by right)) as (c' & Hc' & Ht').
+      destruct (cs_le_lookup_r _ _ _ _ (pop_task_le cs j t) Hc') as (c'' & Hc'' & Hnn & _). exists c''. split; [done|]. by rewrite Hnn.
+  Qed.
+
+  Lemma hinv_h2c s cs m m' :
+    HInv E K s {| h_cs := cs; h_h2c := m |} →
+    (∀ h, m' !! h = m !! h ∨ ∃ i, (i < List.length cs)%nat ∧ m' !! h = Some (Some i)) →
+    HInv E K s {| h_cs := cs; h_h2c := m' |}.
+  Proof.
+    intros Hh Hm. constructor; simpl; try apply Hh.
+    intros w h Hw. destruct (hi_h2c Hh _ _ Hw) as (oc & Hoc & Hb). simpl in *.
+    destruct (Hm h) as [Heq|(i & Hi & Heq)].
+    - exists oc. by rewrite Heq.
+    - exists (Some i). split; [done|]. by intros ? [= <-].
+  Qed.
+
+  (* what one call of assign returns *)
+  Lemma heur_assign_spec o hs I asg hs' : heur_assign J E o hs I = Next (asg, hs') →
+    h_cs hs' = a_cs (apply_asg {| a_cs := h_cs hs; a_idle := I |} asg) ∧
+    (∀ j w t, (j, w, t) ∈ asg → ∃ c, h_cs hs !! j = Some c ∧ t ∈ c_comp c) ∧
+    (∀ h, h_h2c hs' !! h = h_h2c hs !! h ∨ ∃ i, (i < List.length (h_cs hs))%nat ∧ h_h2c hs' !! h = Some (Some i)).
+  Proof.
+    unfold heur_assign. intros Hha.
+    apply rbind_Next in Hha as (gs & Hgs & Hha). apply rbind_Next in Hha as (a1 & Ha1 & Hha).
+    destruct (stepI_spec _ _ _ _ _ _ Ha1) as [Hs1 _]. simpl in Hs1.
+    revert Hha. case_bool_decide; [intros [= <- <-]; simpl; split; [done|]; split; [done|]; by left|].
+    case_bool_decide; [intros [= <- <-]; simpl; split; [done|]; split; [done|]; by left|].
+    intros Hha. apply rbind_Next in Hha as (ms & Hms & Hha). apply rbind_Next in Hha as ([a2 h2c'] & HsII & Hha).
+    injection Hha as <- <-. simpl.
+    destruct (stepII_spec _ _ _ _ _ _ _ _ _ _ HsII) as (Hs2 & _ & Hh2).
+    set (v0 := {| a_cs := h_cs hs; a_idle := I |}) in *.
+    split; [by rewrite apply_asg_app|]. split.
+    - intros j w t Hin. apply elem_of_app in Hin as [Hin|Hin]; [exact (Hs1 _ _ _ Hin)|].
+      destruct (Hs2 _ _ _ Hin) as (c' & Hc' & Ht).
+      destruct (cs_le_lookup_l _ _ _ _ (apply_asg_le a1 v0) Hc') as (c0 & Hc0 & _ & Hsub). exists c0. split; [done|]. set_solver.
+    - intros h. destruct (Hh2 h) as [?|(z & i & Hcl & Heq)]; [by left|]. right. exists i. split; [|done].
+      apply elem_of_comps_pos in Hcl as (c & Hc & _). apply lookup_lt_Some in Hc.
+      by rewrite (cs_le_length _ _ (apply_asg_le a1 v0)) in Hc.
+  Qed.
+
+  Lemma new_computable_spec s d t : Inv J E s → t ∈ new_computable (ctl s) d → is_task J t ∧ d ∈ ins J t.
+  Proof.
+    intros Hinv Ht. unfold new_computable in Ht. apply elem_of_filter in Ht as [Hb _].
+    unfold becomes_computable in Hb. destruct (tracker (ctl s) !! t) as [X|] eqn:HX; [|done].
+    apply bool_decide_eq_true in Hb. subst X.
+    destruct (i_tr _ _ _ Hinv _ _ HX) as (Htask & _ & _ & _ & _ & Heq). split; [done|]. set_solver.
+  Qed.
+
+  Lemma hinv_notify s hs ev s' cmds hs' :
+    Inv J E s → HInv E K s hs → exec J E s (LDeliver ev) = Next (s', cmds) →
+    h_notify hs (ctl s) ev = Next hs' → HInv E K s' hs'.
+  Proof.
+    intros Hinv Hh Hex Hn. destruct (deliver_fields _ _ _ _ _ _ Hex) as [Hnt Ed].
+    destruct (notify_fields _ _ _ _ _ Hnt) as (Ec & Eo & Ei).
+    assert (Hidle : ∀ w, is_Some (e_host E !! w) → ong (ctl s') w = ∅ → w ∈ idle (ctl s')).
+    { intros w Hw Ho. destruct (Eo w Ho) as [Ho'|?]; [|done]. apply Ei. by apply (hi_idle Hh). }
+    assert (Hpay : ev_new (ctl s) ev = ∅ → hs' = hs → HInv E K s' hs').
+    { intros Hnew ->. rewrite Hnew in Ec. constructor; try apply Hh; [| |done].
+      - intros i c t Hc. rewrite Ec. pose proof (hi_comp Hh i c t Hc). set_solver.
+      - intros i c Hc. unfold disp_set. rewrite Ed. by apply (hi_weight Hh i). }
+    assert (Hpub : ∀ d, ev_new (ctl s) ev = new_computable (ctl s) d →
+              match comp_of (h_cs hs) d.1 with
+              | None => Crash "KeyError: state.ts2component"
+              | Some i => Next {| h_cs := add_computable (h_cs hs) i (new_computable (ctl s) d); h_h2c := h_h2c hs |}
+              end = Next hs' → HInv E K s' hs').
+    { intros d Hnew Hn'. rewrite Hnew in Ec. clear Hpay Hn.
+      destruct (comp_of (h_cs hs) d.1) as [i|] eqn:Hco; [|done]. injection Hn' as <-.
+      unfold comp_of in Hco. destruct (list_find _ _) as [[i' c]|] eqn:Hf; [|done]. injection Hco as ->.
+      apply list_find_Some in Hf as (Hc & Hdn & _).
+      pose proof (hinv_K Hh Hc) as HKi.
+      assert (Hsub : ∀ t, t ∈ new_computable (ctl s) d → t ∈ c_nodes c).
+      { intros t Ht. destruct (new_computable_spec _ _ _ Hinv Ht) as [Htask Hd].
+        destruct (wk_cover _ _ Hwk _ Htask) as (j & X & HKj & HtX).
+        pose proof (wk_closed _ _ Hwk _ _ _ _ HKj HtX Hd) as HdX.
+        assert (j = i) as -> by apply (wk_disj _ _ Hwk j i _ _ _ HKj HKi HdX Hdn). congruence. }
+      assert (Hother : ∀ j c' t, j ≠ i → h_cs hs !! j = Some c' → t ∈ c_nodes c' → t ∉ new_computable (ctl s) d).
+      { intros j c' t Hne Hc' Hin Ht. apply Hne.
+        apply (wk_disj _ _ Hwk j i _ _ t (hinv_K Hh Hc') HKi Hin (Hsub _ Ht)). }
+      constructor; simpl.
+      - unfold add_computable. rewrite fmap_nodes_alter by done. apply (hi_nodes Hh).
+      - intros j c' t Hc'. unfold add_computable in Hc'. destruct (decide (j = i)) as [->|Hne].
+        + rewrite list_lookup_alter, Hc in Hc'. injection Hc' as <-. simpl. rewrite Ec.
+          pose proof (hi_comp Hh i c t Hc). pose proof (Hsub t). set_solver.
+        + rewrite list_lookup_alter_ne in Hc' by done. rewrite Ec.
+          pose proof (hi_comp Hh j c' t Hc'). pose proof (Hother j c' t Hne Hc'). set_solver.
+      - intros j c' Hc'. unfold add_computable in Hc'. unfold disp_set. rewrite Ed. destruct (decide (j = i)) as [->|Hne].
+        + rewrite list_lookup_alter, Hc in Hc'. injection Hc' as <-. simpl. by apply (hi_weight Hh i).
+        + rewrite list_lookup_alter_ne in Hc' by done. by apply (hi_weight Hh j).
+      - intros w h Hw. destruct (hi_h2c Hh _ _ Hw) as (oc & Hoc & Hb). exists oc. split; [done|].
+        unfold add_computable. by rewrite alter_length.
+      - done. }
+    destruct ev as [w d|h d|d v]; simpl in Hn.
+    - by apply (Hpub d).
+    - by apply (Hpub d).
+    - injection Hn as <-. by apply Hpay.
+  Qed.
+End preserve.
+
+(* ------------------------------------------------------------------ every step of the heuristic-driven system *)
+Section system.
+  Context (J : job) (E : env) (K : list (gset task)).
+  Hypothesis wf_nout : ∀ t, is_task J t → 1 ≤ nout J t.
+  Hypothesis Hwk : wf_comps J K.
+
+  Lemma assign_seq_inv asg : ∀ s s', Inv J E s → assign_seq J E s asg = Next s' → Inv J E s'.
+  Proof.
+    induction asg as [|[[w t] x] asg IH]; intros s s' Hinv; simpl; [by intros [= <-]|].
+    pose proof (exec_inv J E wf_nout s (LAssign w t x) Hinv) as Hs. simpl in Hs.
+    destruct (assign_c J E (ctl s) w t x) as [[c h]| |e|e]; try done.
+    case_bool_decide; [done|]. by apply IH.
+  Qed.
+
+  Theorem hexec_inv s hs hl s' hs' :
+    Inv J E s → HInv E K s hs → hexec J E (s, hs) hl = Next (s', hs') → Inv J E s' ∧ HInv E K s' hs'.
+  Proof.
+    intros Hinv Hh. destruct hl as [o srcs|l]; simpl.
+    - destruct (has_computable (ctl s)).
+      + intros Hx. apply rbind_Next in Hx as ([asg hs1] & Hha & Hx). simpl in Hx.
+        case_bool_decide as Hlen; [|done]. apply rbind_Next in Hx as (s1 & Hseq & [= <- <-]).
+        destruct (heur_assign_spec J E K o hs (idle (ctl s)) asg hs1 Hha) as (Hcs & Hsound & Hm).
+        destruct hs as [cs m]. destruct hs1 as [cs1 m1]. simpl in *. subst cs1.
+        destruct (hinv_assign_seq J E K wf_nout Hwk asg srcs s cs (idle (ctl s)) m s1 Hlen Hinv Hh) as [Hinv1 Hh1]; [|done|].
+        { intros j w t Hin. destruct (Hsound _ _ _ Hin) as (c & Hc & Ht). exists c. split; [done|].
+          by apply (hi_comp Hh j c t Hc) in Ht as [_ ?]. }
+        split; [done|]. apply (hinv_h2c J E K s1 _ m m1 Hh1). intros h. destruct (Hm h) as [?|(i & Hi & ?)]; [by left|].
+        right. exists i. split; [|done].
+        by rewrite (cs_le_length _ _ (apply_asg_le asg {| a_cs := cs; a_idle := idle (ctl s) |})).
+      + case_bool_decide; [|done]. intros [= <- <-]. done.
+    - destruct l as [w t x| |ev|w i|x|x|x].
+      + done.
+      + pose proof (exec_inv J E wf_nout s LFlush Hinv) as Hs.
+        destruct (exec J E s LFlush) as [[s1 cm]| |e|e] eqn:Hex; try done. intros [= <- <-]. split; [done|].
+        destruct (frame_fields _ _ _ _ _ _ I Hex) as (? & ? & ? & ?). by apply (hinv_frame J E K s s1 hs).
+      + pose proof (exec_inv J E wf_nout s (LDeliver ev) Hinv) as Hs.
+        destruct (exec J E s (LDeliver ev)) as [[s1 cm]| |e|e] eqn:Hex; try done.
+        intros Hx. apply rbind_Next in Hx as (hs1 & Hn & [= <- <-]). split; [done|].
+        by apply (hinv_notify J E K Hwk s hs ev s1 cm hs1).
+      + pose proof (exec_inv J E wf_nout s (LPublish w i) Hinv) as Hs.
+        destruct (exec J E s (LPublish w i)) as [[s1 cm]| |e|e] eqn:Hex; try done. intros [= <- <-]. split; [done|].
+        destruct (frame_fields _ _ _ _ _ _ I Hex) as (? & ? & ? & ?). by apply (hinv_frame J E K s s1 hs).
+      + pose proof (exec_inv J E wf_nout s (LXfer x) Hinv) as Hs.
+        destruct (exec J E s (LXfer x)) as [[s1 cm]| |e|e] eqn:Hex; try done. intros [= <- <-]. split; [done|].
+        destruct (frame_fields _ _ _ _ _ _ I Hex) as (? & ? & ? & ?). by apply (hinv_frame J E K s s1 hs).
+      + pose proof (exec_inv J E wf_nout s (LFetch x) Hinv) as Hs.
+        destruct (exec J E s (LFetch x)) as [[s1 cm]| |e|e] eqn:Hex; try done. intros [= <- <-]. split; [done|].
+        destruct (frame_fields _ _ _ _ _ _ I Hex) as (? & ? & ? & ?). by apply (hinv_frame J E K s s1 hs).
+      + pose proof (exec_inv J E wf_nout s (LPurge x) Hinv) as Hs.
+        destruct (exec J E s (LPurge x)) as [[s1 cm]| |e|e] eqn:Hex; try done. intros [= <- <-]. split; [done|].
+        destruct (frame_fields _ _ _ _ _ _ I Hex) as (? & ? & ? & ?). by apply (hinv_frame J E K s s1 hs).
+  Qed.
+
+  Theorem hrun_inv ls : ∀ s hs s' hs',
+    Inv J E s → HInv E K s hs → hrun J E (s, hs) ls = Next (s', hs') → Inv J E s' ∧ HInv E K s' hs'.
+  Proof.
+    induction ls as [|l ls IH]; intros s hs s' hs' Hinv Hh; simpl; [by intros [= <- <-]|].
+    intros Hx. apply rbind_Next in Hx as ([s1 hs1] & Hex & Hx).
+    destruct (hexec_inv _ _ _ _ _ Hinv Hh Hex) as [Hinv1 Hh1]. by apply (IH s1 hs1).
+  Qed.
+
+  Corollary hreachable_inv ls s hs :
+    hrun J E (init J E, hinit J E K) ls = Next (s, hs) → Inv J E s ∧ HInv E K s hs.
+  Proof. apply hrun_inv; [apply inv_init|by apply hinv_init]. Qed.
+
+  (* the assignments of one phase only add to [ongoing] *)
+  Lemma assign_seq_ong asg : ∀ s s' w t, assign_seq J E s asg = Next s' → t ∈ ong (ctl s) w → t ∈ ong (ctl s') w.
+  Proof.
+    induction asg as [|[[w0 t0] x] asg IH]; intros s s' w t; simpl; [by intros [= <-]|].
+    destruct (exec J E s (LAssign w0 t0 x)) as [[s1 cm]| |e|e] eqn:Hex; try done.
+    intros Hseq Ht. apply (IH s1 s' w t Hseq).
+    destruct (assign_fields _ _ _ _ _ _ _ _ Hex) as (_ & _ & _ & Eo & _). rewrite Eo.
+    destruct (decide (w0 = w)) as [->|?]; [set_solver|done].
+  Qed.
+
+  (* ---------------------------------------------------------------- the assign phase establishes assign_progress *)
+  Theorem hassign_progress rank s hs o srcs s1 hs1 :
+    wf_dag J rank → feasible J E → Inv J E s → HInv E K s hs → InOrder J s →
+    hexec J E (s, hs) (HAssign o srcs) = Next (s1, hs1) → assign_progress (ctl s1).
+  Proof.
+    intros Hdag Hfe Hinv Hh Hio. simpl. unfold assign_progress.
+    destruct (has_computable (ctl s)) eqn:Hhc.
+    - intros Hx. apply rbind_Next in Hx as ([asg hs'] & Hha & Hx). simpl in Hx.
+      case_bool_decide as Hlen; [|done]. apply rbind_Next in Hx as (s' & Hseq & [= <- <-]). intros _.
+      destruct asg as [|[[j w] t] asg].
+      + (* nothing assigned: something was running already *)
+        destruct srcs; [|done]. simpl in Hseq. injection Hseq as <-.
+        intros Hot. apply bool_decide_eq_true in Hhc.
+        by apply (heur_assign_nonempty J E K rank s hs o [] hs' Hdag Hwk Hfe Hinv Hh Hio Hot Hhc Hha).
+      + destruct srcs as [|x srcs]; [done|]. simpl in Hseq.
+        destruct (assign_c J E (ctl s) w t x) as [[c h]| |e|e] eqn:Ha; try done.
+        case_bool_decide as Hwq; [done|].
+        match type of Hseq with assign_seq _ _ ?s1 _ = _ => set (s1' := s1) in * end.
+        assert (Hex : ∃ cm, exec J E s (LAssign w t x) = Next (s1', cm)).
+        { simpl. rewrite Ha. rewrite bool_decide_eq_false_2 by done. eauto. }
+        destruct Hex as [cm Hex]. destruct (assign_fields _ _ _ _ _ _ _ _ Hex) as (_ & _ & _ & Eo & _).
+        assert (Ht : t ∈ ong (ctl s') w).
+        { apply (assign_seq_ong _ _ _ _ _ Hseq). rewrite Eo. destruct (decide (w = w)); [set_solver|done]. }
+        intros Hot. assert (t ∈ ongoing_total (ctl s')) as Hin by (apply ongoing_total_spec; eauto).
+        rewrite Hot in Hin. set_solver.
+    - case_bool_decide; [|done]. intros [= <- <-] Hc. apply bool_decide_eq_false in Hhc. by destruct Hhc.
+  Qed.
+End system.
+
+(* ------------------------------------------------------------------ the decidable form of wf_comps *)
+Lemma nodup_bind_disj {A B : Type} (f : A → list B) (l : list A) i j x y b :
+  NoDup (l ≫= f) → l !! i = Some x → l !! j = Some y → b ∈ f x → b ∈ f y → i = j.
+Proof.
+  revert i j. induction l as [|a l IH]; intros i j Hnd Hi Hj Hx Hy; [done|].
+  simpl in Hnd. apply NoDup_app in Hnd as (Hnda & Hsep & Hndl).
+  destruct i as [|i], j as [|j]; simpl in *.
+  - done.
+  - injection Hi as ->. exfalso. apply (Hsep b Hx). apply elem_of_list_bind. exists y. split; [done|]. by apply elem_of_list_lookup_2 in Hj.
+  - injection Hj as ->. exfalso. apply (Hsep b Hy). apply elem_of_list_bind. exists x. split; [done|]. by apply elem_of_list_lookup_2 in Hi.
+  - f_equal. by apply IH.
+Qed.
+
+Lemma wf_comps_b_sound J K : wf_comps_b J K = true → wf_comps J K.
+Proof.
+  unfold wf_comps_b. intros H. apply andb_prop in H as [H Hcl]. apply andb_prop in H as [Hdom Hnd].
+  apply bool_decide_eq_true in Hdom, Hnd. rewrite forallb_forall in Hcl.
+  constructor.
+  - intros t Ht. assert (t ∈ ⋃ K) as Hin by (rewrite <- Hdom; by apply elem_of_dom).
+    apply elem_of_union_list in Hin as (X & HX & HtX). apply elem_of_list_lookup in HX as [i Hi]. eauto.
+  - intros i X t Hi Ht. apply elem_of_dom. rewrite Hdom. apply elem_of_union_list. exists X. split; [|done].
+    by apply elem_of_list_lookup_2 in Hi.
+  - intros i j X Y t Hi Hj HX HY. apply (nodup_bind_disj elements K i j X Y t Hnd Hi Hj); by apply elem_of_elements.
+  - intros i X t d Hi Ht Hd. apply elem_of_list_lookup_2 in Hi. apply elem_of_list_In in Hi.
+    specialize (Hcl X Hi). apply bool_decide_eq_true in Hcl. by apply (Hcl t Ht d Hd).
+Qed.
